@@ -15,7 +15,7 @@ import inspect
 
 import numpy as np
 
-from dst import kernel, seams, refmodel
+from dst import kernel, seams, refmodel, runner
 from dst.kernel import Sim, HarnessError, stream, canon, digest, H
 
 PROP = 'C08'
@@ -115,6 +115,41 @@ class Model:
         self._d_cache[key] = out
         return out
 
+    def derived_of(self, obj):
+        """Derived data that must not depend on the path: classification of
+        the rows into X / Z type, CSS flag and blocks, distance."""
+        out = {}
+        for name in ('is_css', 'n', 'k', 'd', 'n_stabilizers'):
+            try:
+                out[name] = int(getattr(obj, name))
+            except Exception as e:
+                out[name] = 'raises ' + type(e).__name__
+        for name in ('x_indices', 'z_indices'):
+            try:
+                out[name] = [int(bool(v)) for v in
+                             np.asarray(getattr(obj, name)).ravel()]
+            except Exception as e:
+                out[name] = 'raises ' + type(e).__name__
+        for name in ('Hx', 'Hz'):
+            try:
+                M = getattr(obj, name)
+                out[name] = digest([[int(v) % 2 for v in r]
+                                    for r in np.atleast_2d(M.toarray())])
+            except Exception as e:
+                out[name] = 'raises ' + type(e).__name__
+        return out
+
+    def fresh_deformed_derived(self, name, kw):
+        """The same derived data on a newly constructed instance on which
+        nothing but deform(name, **kw) was ever called (memoised)."""
+        key = ('fd', name, canon(kw))
+        if key not in self._d_cache:
+            f = self.cls(*[int(v) for v in self.fresh.size])
+            if name is not None:
+                f.deform(name, **kw)
+            self._d_cache[key] = self.derived_of(f)
+        return self._d_cache[key]
+
     def relabel(self, op, D):
         qi = self.rc.qindex
         return {loc: D[qi[tuple(loc)]][p] for loc, p in op.items()}
@@ -205,7 +240,7 @@ def get_model(cname, size):
     return _model_memo[k]
 
 
-def execute(plan, keep_events=False):
+def execute_here(plan, keep_events=False):
     sim = Sim(plan['seed'], keep_events=keep_events)
     violations = []
     states = set()
@@ -277,6 +312,11 @@ def execute(plan, keep_events=False):
     return _out(sim, violations, states, n_checks[0])
 
 
+def execute(plan, **kw):
+    """One plan = one simulated process image: run in a forked child."""
+    return runner.isolated(execute_here, plan, **kw)
+
+
 def _out(sim, violations, states, n):
     return {'violations': violations, 'fingerprint': sim.log.fingerprint(),
             'states': sorted(states), 'fault_counts': sim.fault_counts,
@@ -326,6 +366,18 @@ def compare(model, obj, cur, noises, sim):
     if matrix_rows(obj.logicals_z, n) != LZ:
         return {'class': 'logical_not_the_relabelled_original',
                 'which': 'logical_z', 'via': 'matrix'}
+    # derived data (row classification, CSS flag and blocks, distance) must
+    # be what a fresh instance deformed directly reports - whatever was
+    # computed on this object before
+    want_d = model.fresh_deformed_derived(name, kw)
+    got_d = model.derived_of(obj)
+    for key in sorted(want_d):
+        if got_d[key] != want_d[key]:
+            return {'class': 'derived_data_depends_on_history',
+                    'attribute': key,
+                    'got': got_d[key] if not isinstance(got_d[key], list)
+                    else 'list', 'fresh': want_d[key]
+                    if not isinstance(want_d[key], list) else 'list'}
     # structure preserved: rank and commutation relations
     rc = refmodel.RefCode.__new__(refmodel.RefCode)
     rc.n, rc.stabs, rc.lx, rc.lz, rc._basis = n, S, LX, LZ, None
@@ -409,7 +461,10 @@ def systematic_plans(seed):
             for ti, (name, kw) in enumerate(ch):
                 other = ch[(ti + 1) % len(ch)]
                 ops = [{'op': 'access', 'props': ['stabilizer_matrix',
-                                                  'logicals_x', 'Hx', 'k']},
+                                                  'logicals_x', 'Hx', 'k',
+                                                  'x_indices', 'is_css']},
+                       {'op': 'noise', 'name': other[0], 'kwargs': other[1],
+                        'direction': [0.1, 0.2, 0.7], 'p': 0.3},
                        {'op': 'noise', 'name': name, 'kwargs': kw,
                         'direction': [0.1, 0.2, 0.7], 'p': 0.3},
                        {'op': 'deform', 'name': other[0],
